@@ -354,6 +354,7 @@ fn run_build(c: &BuildCase) -> Outcome {
                 SrcOpts {
                     faults: c.sched.faults,
                     transient: c.sched.transient,
+                    interrupt: c.sched.interrupt,
                     boundaries: vec![512, 506, 8192],
                     uniform: c.sched.uniform,
                     ..Default::default()
@@ -365,6 +366,7 @@ fn run_build(c: &BuildCase) -> Outcome {
                     faults: c.sched.faults,
                     short_writes: c.short_writes,
                     transient: c.sched.transient,
+                    interrupt: c.sched.interrupt,
                 },
             );
             let handle = sink.handle();
@@ -398,7 +400,18 @@ fn run_build(c: &BuildCase) -> Outcome {
                         viol = Some((format!("C09:{name}:livelock"), sched()));
                         return false;
                     }
-                    if script.fault_injected() {
+                    if script.fault_injected() && c.sched.interrupt {
+                        // an interrupted read / write / flush is repeated by std's helpers: the
+                        // complete output, or an error - never Ok with another output
+                        if res.is_ok() && out != want {
+                            viol = Some((
+                                format!("C09:{name}:interrupted-call-changes-the-output"),
+                                format!("one call of the source or sink answered ErrorKind::Interrupted and the builder returned Ok with {} octets that differ from the {} of the reference; schedule {}", out.len(), want.len(), sched()),
+                            ));
+                            return false;
+                        }
+                        true
+                    } else if script.fault_injected() {
                         if res.is_ok() {
                             let which = if script
                                 .trace()
@@ -616,6 +629,7 @@ fn run_small(c: &SmallCase) -> Outcome {
                             faults: sched.faults,
                             short_writes: true,
                             transient: sched.transient,
+                            interrupt: sched.interrupt,
                         },
                     );
                     let h = sink.handle();
@@ -640,7 +654,16 @@ fn run_small(c: &SmallCase) -> Outcome {
                             false
                         }
                         Ok(res) => {
-                            if script.fault_injected() {
+                            if script.fault_injected() && sched.interrupt {
+                                if res.is_ok() && out != want {
+                                    viol = Some((
+                                        format!("C09:{name}:interrupted-call-changes-the-output"),
+                                        format!("armor::write returned Ok with {} octets that differ from the {} of the reference after one interrupted write / flush; schedule {sched_s}", out.len(), want.len()),
+                                    ));
+                                    return false;
+                                }
+                                true
+                            } else if script.fault_injected() {
                                 if res.is_ok() {
                                     let how = if out == want { "complete" } else { "truncated" };
                                     viol = Some((
@@ -940,6 +963,7 @@ pub fn check(ctx: &Ctx) {
             let mut scheds = vec![
                 (dev(1, 0, Consumer::ToEnd), true),
                 (devt(1, 0, Consumer::ToEnd), false),
+                (devi(1, 0, Consumer::ToEnd), false),
                 (uni(1, 0, Consumer::ToEnd), false),
                 (uni(3, 0, Consumer::ToEnd), false),
                 (uni(511, 0, Consumer::ToEnd), false),
@@ -965,7 +989,7 @@ pub fn check(ctx: &Ctx) {
     ctx.run_space(
         "message_builder",
         true,
-        "MessageBuilder::from_reader(scripted source) -> to_writer / to_armored_writer(scripted sink) for the same 40 configurations and lengths: all executions with <= 1 (thorough 2) deviations: short source reads at every call (incl. sizes ending at 506/512/8192), short sink writes, one injected source or sink error (write or flush; sticky and transient) at every call; plus uniform 1/2/3/7/511/513-byte sources. Oracle: output byte-identical to the in-memory run (fixed rng, pinned clock); an injected error makes the call return Err.",
+        "MessageBuilder::from_reader(scripted source) -> to_writer / to_armored_writer(scripted sink) for the same 40 configurations and lengths: all executions with <= 1 (thorough 2) deviations: short source reads at every call (incl. sizes ending at 506/512/8192), short sink writes, one injected source or sink error (read, write or flush; sticky, transient, and ErrorKind::Interrupted) at every call; plus uniform 1/2/3/7/511/513-byte sources. Oracle: output byte-identical to the in-memory run (fixed rng, pinned clock); an injected error makes the call return Err (an interrupted call: the identical output, or Err).",
         bc.into_par_iter(),
         run_build,
     );
@@ -990,9 +1014,7 @@ pub fn check(ctx: &Ctx) {
                 for cap in if matches!(subject, 0 | 1) { vec![1usize, 5, 8192] } else { vec![8192] } {
                     sc.push(SmallCase { subject, n, sched: dev(if quick || n > 200 { 1 } else { 2 }, cap, consumer), all_compositions: false });
                     sc.push(SmallCase { subject, n, sched: devt(1, cap, consumer), all_compositions: false });
-                    if subject != 6 {
-                        sc.push(SmallCase { subject, n, sched: devi(1, cap, consumer), all_compositions: false });
-                    }
+                    sc.push(SmallCase { subject, n, sched: devi(1, cap, consumer), all_compositions: false });
                     for u in [1usize, 2, 3, 7] {
                         sc.push(SmallCase { subject, n, sched: uni(u, cap, consumer), all_compositions: false });
                     }
